@@ -207,6 +207,40 @@ CLAIMED["C11"] = dict(
     technique="Lean 4 reference validator + theorems (logical laws of the applicators) + differential verdicts over five dialects",
     design="§5 C11")
 
+CLAIMED["C05"] = dict(
+    text="Lean 4 proofs of the index and length computations the C++ uses to address memory: every index the JSONPath/JMESPath slice arithmetic visits is inside "
+         "the array for all start/stop/step; the shared payload reader's buffer never exceeds what arrived plus one chunk whatever length is claimed; positional "
+         "conversions (tuple, std::array) reject inputs that are too short instead of reading past them; the CSV field scanner is total. Everything else is observed: "
+         "every public entry point (decode_* through buffer, stream, cursor, reader and typed forms for JSON, CBOR, MessagePack, UBJSON, BSON, CSV with typed columns, "
+         "TOON; JSONPath, JMESPath, JSON Pointer, URI and JSON Schema compilers and their evaluation; encoders under random option sets) is driven with mutated "
+         "spec-derived inputs and hand-built hostile ones under ASan+UBSan, every exception classified, every call given a time budget.",
+    note="Partial: memory safety, undefined behaviour, leaks, termination and exception types are facts about the compiled artefact; the proofs cover the logic of "
+         "bounds only, the rest is sanitizer-observed on a finite set of inputs. D64 (out-of-bounds read in the JMESPath compiler) and D65 (compiler loops forever) "
+         "found and fixed here; D3, D34, D39, D58, D59 found by other properties' checks are of this kind too.",
+    technique="Lean 4 bounds theorems + sanitizer-instrumented mutation streams over every entry point (observation, not proof)",
+    design="§5 C05")
+
+CLAIMED["C19"] = dict(
+    text="Lean 4 proof about the one place where basic_json manages raw storage by hand: the order of steps of copy assignment. Building the copy before releasing "
+         "the old value is safe for every failure point; the order the code had is not (the theorem exhibits the failing point; repaired as D14). The real library is "
+         "swept: for each scenario (parse, decode CBOR/MessagePack, deep copy, assignment over an existing value, insertion with reallocation, apply_patch, "
+         "apply_merge_patch, json_query, jmespath search, schema compilation and validation, dump/encode) and generated input, std::bad_alloc is injected at "
+         "allocation 1..N through a replaced global operator new; after each failure no block is outstanding, survivors are valid and sources unchanged.",
+    note="Partial: which allocation sites exist and what is live at each is a fact about the compiled code, observed per scenario, not proved; stateful allocators are "
+         "not exercised. D66 (apply_patch not atomic under allocation failure) is a known finding; D14 and D67 found and fixed.",
+    technique="Lean 4 protocol theorem (copy-before-destroy) + exhaustive allocation-failure injection over scenario families on the real code",
+    design="§5 C19")
+
+CLAIMED["C20"] = dict(
+    text="Lean 4 proof of what immutability buys: if no step writes the shared artifact, then under every interleaving each thread ends with exactly what it computes "
+         "alone, hence the same as single-threaded use. That the C++ meets the premise is observed with ThreadSanitizer: compiled JSON Schemas, JSONPath and JMESPath "
+         "expressions and basic_json documents are shared by 2-16 threads released together on a fresh artifact per round; every thread's results are compared with "
+         "those of a separately built copy used sequentially.",
+    note="Partial: data races are facts about the compiled program under the C++ memory model; TSan observes the executed schedules only. The theorem is about the "
+         "abstract consequence (schedule independence of readers), its premise is checked dynamically, not proved.",
+    technique="Lean 4 schedule-independence theorem + ThreadSanitizer runs with result comparison on shared compiled artifacts",
+    design="§5 C20")
+
 ALL = ["C%02d" % i for i in range(1, 21)]
 NOT_YET = "not claimed yet: the Lean model, theorems and correspondence harness for this property are still being built (see DESIGN.md §8 staging)"
 
